@@ -584,6 +584,223 @@ def gen_state_script(r):
     return sc
 
 
+def edit_first(sp, nm, f):
+    """apply f to the first node in pre-order (also below wrappers) named nm; returns (tree, found)"""
+    if sp[1] == nm:
+        return f(sp), True
+    if sp[0] == 'C':
+        out, done = [], False
+        for c in sp[2]:
+            if done:
+                out.append(c)
+            else:
+                c2, done = edit_first(c, nm, f)
+                out.append(c2)
+        return ('C', sp[1], out), done
+    if sp[0] == 'W':
+        c2, done = edit_first(sp[2], nm, f)
+        return ('W', sp[1], c2), done
+    return sp, False
+
+
+def find_any(sp, nm):
+    for x in subtrees_all(sp):
+        if x[1] == nm:
+            return x
+    return None
+
+
+def apply_edits(sp, toks, locked, dimnames):
+    """the structure after the edit list of an `evolve` line (independent of the model): returns (sp, locked, dimnames)"""
+    locked = set(locked)
+    dimnames = {k: dict(v) for k, v in dimnames.items()}
+    i = 0
+    while i < len(toks):
+        e = toks[i]
+        i += 1
+        if e in ("setup", "compute"):
+            continue
+        if e in ("dim", "dimn"):
+            nm = int(toks[i])
+            i += 1
+            node = find_any(sp, nm)
+            if e == "dimn":
+                dimnames.setdefault(nm, {})[node[2]] = int(toks[i])
+                i += 1
+            sp, _ = edit_first(sp, nm, lambda x: ('R', x[1], x[2] + 1))
+        elif e == "sub":
+            nm = int(toks[i])
+            c, i = parse_sp(toks, i + 1)
+            if nm not in locked:
+                sp, _ = edit_first(sp, nm, lambda x: ('C', x[1], list(x[2]) + [c]))
+        elif e == "name":
+            old, new = int(toks[i]), int(toks[i + 1])
+            i += 2
+            sp, _ = edit_first(sp, old, lambda x: (x[0], new) + tuple(x[2:]))
+            if old in locked:
+                locked.discard(old)
+                locked.add(new)
+            if old in dimnames:
+                dimnames[new] = dimnames.pop(old)
+        elif e == "lock":
+            locked.add(int(toks[i]))
+            i += 1
+        elif e == "w":
+            i += 2
+        else:
+            raise ValueError("edit " + e)
+    return sp, locked, dimnames
+
+
+def spec_value_names(sp, dimnames):
+    """getValueLocationsByName as name -> state-tree path of the double: every space reachable through genuine compounds (below
+    the top-level wrappers) that holds at least one double names its first one; named dimensions of real vector spaces"""
+    prefix = []
+    while sp[0] == 'W':
+        prefix.append(0)
+        sp = sp[2]
+    out = {}
+
+    def go(x, path):
+        ra = real_addrs(x)
+        if ra:
+            out[x[1]] = path + ra[0]
+            if x[0] == 'R':
+                for idx, dn in dimnames.get(x[1], {}).items():
+                    out[dn] = path + [idx]
+        if x[0] == 'C':
+            for i, c in enumerate(x[2]):
+                go(c, path + [i])
+    go(sp, prefix)
+    return out
+
+
+def gen_evolve_script(r):
+    """space-evolution histories: a space is set up and used, then CHANGES (addDimension, addSubspace at top level / in a nested
+    compound / below a wrapper, setName, lock + refused addSubspace, setSubspaceWeight, intermediate setups) and is set up again;
+    then the whole battery runs on the evolved space: images, clone/copy/deserialize, reals both ways, ScopedState, partial
+    copies in both directions with a space that shares the ADDED component, common subspaces, storage with the new signature"""
+    sc = Script(spaced=r.chance(1, 5))
+    names = Names()
+    spaces, states = {}, {}
+    nst = 0
+    kind = r.below(6)
+    if kind == 0:
+        A = ('R', names.fresh(), r.range(1, 3))
+    elif kind == 1:
+        A = ('W', names.fresh(), ('C', names.fresh(), [gen_inner(r, names, 1, False) for _ in range(r.range(1, 3))]))
+    else:
+        kids_ = [gen_inner(r, names, 2, False) for _ in range(r.range(1, 3))]
+        if r.chance(1, 2):
+            kids_.insert(r.below(len(kids_) + 1), ('C', names.fresh(), [gen_leaf(r, names, False), ('C', names.fresh(), [gen_leaf(r, names, False)])]))
+        if r.chance(1, 2):
+            kids_.append(('R', names.fresh(), r.range(1, 2)))
+        A = ('C', names.fresh(), kids_)
+    added = r.choice([('R', names.fresh(), r.range(1, 3)), ('S2', names.fresh()), ('S3', names.fresh()),
+                      ('C', names.fresh(), [('R', names.fresh(), 2), ('S2', names.fresh())]), ('D', names.fresh())])
+    # B shares the component that will be ADDED to A and (sometimes) one subtree A has from the start; those nodes are never
+    # edited, so that equally named spaces stay structurally equal (copyStateData matches by name only)
+    keep = r.choice(subtrees(A)[1:]) if A[0] == 'C' and len(subtrees(A)) > 1 and r.chance(1, 2) else None
+    B = ('C', names.fresh(), [gen_leaf(r, names, False), added] + ([keep] if keep else []))
+    protected = set(names_of_all(added)) | (set(names_of_all(keep)) if keep else set())
+
+    def add_space(i, sp):
+        spaces[i] = sp
+        sc.add("space %d %s" % (i, " ".join(sp_tokens(sp))), op="space", sp=sp)
+
+    def add_state(spid, regular):
+        nonlocal nst
+        nst += 1
+        at = gen_atoms(r, spaces[spid], regular)
+        states[nst] = spid
+        sc.add(("state %d %d %d %s" % (nst, spid, len(at), " ".join(at))).strip(), op="state", sp=spaces[spid], atoms=at, regular=regular)
+        return nst
+
+    def battery(tag):
+        A_ = spaces[1]
+        nre = len(real_addrs(A_))
+        sa = [add_state(1, r.chance(1, 2)) for _ in range(2)]
+        for s_ in sa:
+            if r.chance(2, 3):
+                rs = [rand_bits(r) for _ in range(nre)]
+                sc.add(("fromreals %d %d %s" % (s_, nre, " ".join(map(str, rs)))).strip(), op="fromreals", sid=s_, reals=rs)
+            if r.chance(1, 2):
+                sc.add("sreals %d" % s_, op="sreals", sid=s_)
+            if r.chance(1, 3):
+                k = r.choice([1, nre, nre + 1])
+                rs = [rand_bits(r) for _ in range(k)]
+                sc.add(("sfrom %d %d %s" % (s_, k, " ".join(map(str, rs)))).strip(), op="sfrom", sid=s_, reals=rs)
+        sb = add_state(2, False)
+        for (d, s_) in ((add_state(1, False), sb), (add_state(2, False), r.choice(sa))):
+            sc.add("csd %d %d" % (d, s_), op="csd", d=d, s=s_, rel=tag)
+        if no_wrapper_top(A_):
+            for (dsp, ssp) in ((1, 2), (2, 1)):
+                d, s_ = add_state(dsp, False), add_state(ssp, False)
+                sc.add("common %d %d" % (d, s_), op="common", d=d, s=s_, rel=tag)
+                ns = common_names(spaces[dsp], spaces[ssp])
+                r.shuffle(ns)
+                ns = ns[:r.range(0, len(ns))]
+                d2 = add_state(dsp, False)
+                sc.add(("csdn %d %d %d %s" % (d2, s_, len(ns), " ".join(map(str, ns)))).strip(), op="csdn", d=d2, s=s_, names=ns, rel=tag)
+        else:
+            d = add_state(1, False)
+            sc.add("sop %d %d %s" % (d, sb, r.choice(["shl", "shr"])), op="sop", d=d, s=sb, rel=tag)
+        if ser_len(A_) > 0 and r.chance(2, 3):
+            sids = [r.choice(sa) for _ in range(r.range(1, 3))]
+            sc.add("ss 1 2 %d %d %s" % (r.below(1 << 30), len(sids), " ".join(map(str, sids))), op="ss", sids=sids, sp=A_, sp2=spaces[2])
+
+    add_space(1, A)
+    add_space(2, B)
+    battery("before-evolution")
+    locked, dimnames = set(), {}
+    for round_ in range(r.range(1, 2)):
+        cur = spaces[1]
+        toks = []
+        tmp = cur
+        have_added = added[1] in names_of_all(tmp)
+        for _ in range(r.range(1, 4)):
+            nodes = [x for x in subtrees_all(tmp) if x[1] not in protected]
+            rs_ = [x for x in nodes if x[0] == 'R']
+            cs_ = [x for x in nodes if x[0] == 'C']
+            if not nodes:
+                break
+            y = r.below(100)
+            step = None
+            if y < 30 and rs_:
+                n = r.choice(rs_)
+                step = ["dimn", str(n[1]), str(names.fresh())] if r.chance(1, 3) else ["dim", str(n[1])]
+            elif y < 65 and cs_:
+                n = r.choice(cs_)
+                if not have_added and n[1] not in locked:
+                    child, have_added = added, True
+                else:
+                    child = gen_inner(r, names, 1, False)
+                step = ["sub", str(n[1])] + sp_tokens(child)
+            elif y < 78:
+                n = r.choice(nodes)
+                step = ["name", str(n[1]), str(names.fresh())]
+            elif y < 86 and cs_:
+                n = r.choice(cs_)
+                step = ["lock", str(n[1])]
+                if r.chance(2, 3):
+                    step += ["sub", str(n[1])] + sp_tokens(gen_leaf(r, names, False))     # refused: the space is locked
+            elif y < 93 and cs_:
+                n = r.choice(cs_)
+                step = ["w", str(n[1]), str(r.below(len(n[2]) + 1))]
+            elif r.chance(1, 2):
+                step = [r.choice(["setup", "compute"])]
+            if step:
+                toks += step
+                tmp, locked, dimnames = apply_edits(tmp, step, locked, dimnames)
+        toks.append("setup" if r.chance(3, 4) or tmp[0] == 'W' else "compute")
+        spaces[1] = tmp
+        sc.add("evolve 1 %s" % " ".join(toks), op="evolve", sp=tmp, dimnames={k: dict(v) for k, v in dimnames.items()}, spid=1)
+        for k in [k for k, v in states.items() if v == 1]:
+            del states[k]
+        battery("after-evolution")
+    return sc
+
+
 def gen_storage_script(r, big=False, quick=True):
     sc = Script()
     names = Names()
@@ -930,9 +1147,12 @@ def oracle(sc, impl, rc, err):
             dsp = states[meta["d"]][0]
             states[meta["d"]] = (dsp, [] if f.get("atoms", "-") == "-" else f["atoms"].split(","))
             continue
-        if op in ("space", "rename"):
+        if op in ("space", "rename", "evolve"):
             sp = meta["sp"]
             spaces[int(t[1])] = sp
+            if op == "evolve":
+                # the states of the old structure were released
+                states = {k: v for k, v in states.items() if v[0] != int(t[1])}
             cls = "wrapper-of-compound-in-compound" if wc_below_compound(sp) else "plain"
             exp = {
                 "sig": join_or(list(map(str, spec_sig(sp)))),
@@ -944,8 +1164,16 @@ def oracle(sc, impl, rc, err):
             for k2, v in exp.items():
                 if f.get(k2) != v:
                     what = {"nreals": "reals-lost", "locs": "reals-lost", "va": "value-address"}.get(k2, "space-" + k2)
-                    fail(what, "%s=%s, specification says %s" % (k2, f.get(k2), v), space_class=cls)
+                    fail(what, "%s=%s, specification says %s%s" % (k2, f.get(k2), v, " (after the space changed and was set up again)" if op == "evolve" else ""),
+                         space_class=cls if op != "evolve" else "evolved-after-setup")
                     break
+            else:
+                if op == "evolve":
+                    want = spec_value_names(sp, meta.get("dimnames", {}))
+                    want_s = join_or(["%d:%s" % (k, chain_str(v)) for k, v in sorted(want.items())], ";")
+                    if x.get("vn") != want_s:
+                        fail("value-names", "getValueLocationsByName/getValueAddressAtName after the space changed and was set up again: %s; the current "
+                             "structure has %s" % (x.get("vn", "")[:150], want_s[:150]), space_class="evolved-after-setup")
         elif op == "state":
             sp, at = meta["sp"], meta["atoms"]
             states[int(t[1])] = (int(t[2]), list(at))
@@ -1436,6 +1664,13 @@ def script_from_lines(lines):
         elif op == "rename":
             spaces[int(t[1])] = rename_tree(spaces[int(t[1])], int(t[2]), int(t[3]))
             sc.add(line, op=op, sp=spaces[int(t[1])], spid=int(t[1]))
+        elif op == "evolve":
+            if not hasattr(sc, "evo"):
+                sc.evo = {}
+            lk, dn = sc.evo.get(int(t[1]), (set(), {}))
+            spaces[int(t[1])], lk, dn = apply_edits(spaces[int(t[1])], t[2:], lk, dn)
+            sc.evo[int(t[1])] = (lk, dn)
+            sc.add(line, op=op, sp=spaces[int(t[1])], spid=int(t[1]), dimnames={k: dict(v) for k, v in dn.items()})
         elif op == "state":
             sc.add(line, op=op, sp=spaces[int(t[2])], atoms=t[4:], regular=False)
         elif op == "fromreals":
@@ -1544,6 +1779,9 @@ def run(ck):
     jobs = []
     for i in range(90 if quick else 500):
         jobs.append(("state", gen_state_script(ck.rng.fork("state%d" % i))))
+    for i in range(40 if quick else 300):
+        # setup -> use -> addDimension / addSubspace (any depth) / setName / lock / weights -> setup -> the whole battery again
+        jobs.append(("space-evolution", gen_evolve_script(ck.rng.fork("evo%d" % i))))
     for i in range(50 if quick else 300):
         jobs.append(("states-archive", gen_storage_script(ck.rng.fork("ss%d" % i))))
     for i in range(60 if quick else 300):
